@@ -1,7 +1,8 @@
 (* C19 — property theorems only. Each is closed by `exact <lemma>` and followed by Print Assumptions. *)
-From Coq Require Import QArith Qabs List ZArith Reals Permutation.
+From Coq Require Import QArith Qabs List ZArith Reals Permutation Lra Qreals.
 From GeosV.C19 Require Import LinRefDefs LinRefProofs LinRefNearest CheckDefs CheckLists CheckGeom MergeLength CheckProofs GenTie.
 From GeosV.Gen Require Import LR_compareLocationValues.
+From GeosV.C19 Require LRMeasure GenTieLR LRFoldDefs.
 Import ListNotations.
 
 (* ================================================================ linear referencing (model M of LengthLocationMap & co.) *)
@@ -90,6 +91,80 @@ Example ex_project : project [[5; 10]] [[(0, 0); (3, 4); (9, 12)]%Z] (7, 1)%Z ==
                      qpt_eq (interpolate [[5; 10]] [[(0, 0); (3, 4); (9, 12)]%Z] 5) (3, 4).
 Proof. split; [vm_compute; reflexivity | split; vm_compute; reflexivity]. Qed.
 End LinRef.
+
+
+(* ================================================================ the measure arithmetic of linear referencing, on the GENERATED leaf
+   functions (tie G; `double` read as a real number, C19/GenPreludeLR): LineSegment::projectionFactor / getLength / distance,
+   LengthIndexOfPoint::segmentNearestMeasure, LinearLocation::compareTo / isVertex / isOnSameSegment,
+   LengthIndexedLine::positiveIndex / clampIndex; and the hand fold model of the loop of LengthIndexOfPoint::indexOfFromStart *)
+Module LRGen.
+Import RealDistDefs GenPreludeLR LRMeasure GenTieLR LinRefDefs.
+Import C08_ptSeg LR_projectionFactor LR_segLength LR_segDistance LR_segmentNearestMeasure LR_compareTo LR_isVertex LR_isOnSameSegment LR_clampIndex.
+Local Open Scope R_scope.
+
+(* segmentNearestMeasure(seg, p, m0) = m0 + (projection factor clamped to [0,1]; 0 on a zero-length segment) * length *)
+Theorem C19_gen_segmentNearestMeasure_param : forall s p m0, g_segmentNearestMeasure s p m0 = m0 + near_t s p * seg_len s.
+Proof. exact segmentNearestMeasure_param. Qed.
+Print Assumptions C19_gen_segmentNearestMeasure_param.
+(* ... i.e. the returned measure minus segmentStartMeasure is the arc length from the segment start to the point x of the closed
+   segment nearest to p (at distance LineSegment::distance(p)); it stays within the segment's share of the measure *)
+Theorem C19_gen_segmentNearestMeasure_spec : forall s p m0,
+  let x := near_pt s p in
+  on_seg x (f_p0 s) (f_p1 s) /\
+  (forall y, on_seg y (f_p0 s) (f_p1 s) -> distR p x <= distR p y) /\
+  distR p x = g_segDistance s p /\
+  g_segmentNearestMeasure s p m0 - m0 = distR (f_p0 s) x /\
+  m0 <= g_segmentNearestMeasure s p m0 <= m0 + m_getLength_0 s.
+Proof. exact segmentNearestMeasure_spec. Qed.
+Print Assumptions C19_gen_segmentNearestMeasure_spec.
+
+(* indexOfFromStart (whole-line search): the measure is (sum of the lengths of ALL segments before segment k) + (arc length from
+   the start of segment k to x), x a point of the line at minimum distance from p, k the FIRST segment with such a point *)
+Theorem C19_index_of_from_start_nearest_first : forall segs p minIndex, minIndex < 0 -> segs <> [] ->
+  exists k s, nth_error segs k = Some s /\
+    let x := near_pt s p in
+    on_seg x (f_p0 s) (f_p1 s) /\
+    index_of_from_start segs p minIndex = prefix_len k segs + distR (f_p0 s) x /\
+    (forall j sj y, nth_error segs j = Some sj -> on_seg y (f_p0 sj) (f_p1 sj) -> distR p x <= distR p y) /\
+    (forall j sj y, (j < k)%nat -> nth_error segs j = Some sj -> on_seg y (f_p0 sj) (f_p1 sj) -> distR p x < distR p y).
+Proof. exact index_of_from_start_nearest_first. Qed.
+Print Assumptions C19_index_of_from_start_nearest_first.
+Theorem C19_index_of_from_start_range : forall segs p minIndex, minIndex < 0 -> segs <> [] ->
+  0 <= index_of_from_start segs p minIndex <= LRMeasure.total_len segs.
+Proof. exact index_of_from_start_range. Qed.
+Print Assumptions C19_index_of_from_start_range.
+Theorem C19_idx_run_start_is_running_sum : forall segs p minIndex, minIndex < 0 -> snd (idx_run segs p minIndex) = LRMeasure.total_len segs.
+Proof. exact idx_run_start_is_running_sum. Qed.
+Print Assumptions C19_idx_run_start_is_running_sum.
+Example ex_index_of_hyp : -1 < 0 /\ [mk_rseg (mk_rpt 0 0) (mk_rpt 1 0)] <> [].
+Proof. split; [lra | discriminate]. Qed.
+
+(* LinearLocation (member forms) and the index conventions *)
+Theorem C19_gen_compareTo_eq : forall a b : loc, g_compareTo (rl a) (rl b) = cmp_code (cmp_loc a b).
+Proof. exact gen_compareTo_eq. Qed.
+Print Assumptions C19_gen_compareTo_eq.
+Theorem C19_gen_isVertex_eq : forall l : loc, g_isVertex (rl l) = is_vertex l.
+Proof. exact gen_isVertex_eq. Qed.
+Print Assumptions C19_gen_isVertex_eq.
+Theorem C19_gen_isOnSameSegment_spec : forall a b : loc,
+  g_isOnSameSegment (rl a) (rl b) = true <->
+  lcomp a = lcomp b /\ (lseg a = lseg b \/ (lseg b = S (lseg a) /\ (lfrac b == 0)%Q) \/ (lseg a = S (lseg b) /\ (lfrac a == 0)%Q)).
+Proof. exact gen_isOnSameSegment_spec. Qed.
+Print Assumptions C19_gen_isOnSameSegment_spec.
+Theorem C19_gen_clampIndex_spec : forall T i, 0 <= T ->
+  let r := g_clampIndex (lil T) i in
+  0 <= r <= T /\ (0 <= i <= T -> r = i) /\ (- T <= i < 0 -> r = T + i) /\ (T < i -> r = T) /\ (i < - T -> r = 0).
+Proof. exact gen_clampIndex_spec. Qed.
+Print Assumptions C19_gen_clampIndex_spec.
+Theorem C19_gen_clampIndex_eq : forall g i, g_clampIndex (lil (Q2R (total g))) (Q2R i) = Q2R (clamp_index g i).
+Proof. exact gen_clampIndex_eq. Qed.
+Print Assumptions C19_gen_clampIndex_eq.
+Example ex_clampIndex_hyp : 0 <= 5.
+Proof. lra. Qed.
+(* the executable fold (run beside GEOSProject_r): the projected measure of (7 1) on (0 0, 3 4, 9 12) is 5 *)
+Example ex_index_of_q : (LRFoldDefs.index_of_q [[5; 10]%Q] [[(0, 0); (3, 4); (9, 12)]%Z] (7, 1)%Z == 5)%Q.
+Proof. vm_compute. reflexivity. Qed.
+End LRGen.
 
 (* ================================================================ relational specifications with certified checkers *)
 (* merging: equal multisets of unit sub-segments give equal point sets and equal total length *)
